@@ -268,6 +268,10 @@ class SymExec:
     def assign(self, t, v, env):
         if isinstance(t, ast.Name):
             env[t.id] = v
+        elif isinstance(t, (ast.Tuple, ast.List)) and isinstance(v, ast.IfExp) and not any(isinstance(x, ast.Starred) for x in t.elts) and all(
+                isinstance(x, (ast.Tuple, ast.List)) and len(x.elts) == len(t.elts) for x in (v.body, v.orelse)):
+            for i, a in enumerate(t.elts):        # a, b = (x, y) if c else (u, w): component-wise
+                self.assign(a, ast.IfExp(test=v.test, body=v.body.elts[i], orelse=v.orelse.elts[i]), env)
         elif isinstance(t, (ast.Tuple, ast.List)):
             if isinstance(v, (ast.Tuple, ast.List)) and len(v.elts) == len(t.elts) and not any(isinstance(x, ast.Starred) for x in t.elts):
                 for a, b in zip(t.elts, v.elts):
@@ -357,13 +361,21 @@ class Resolver:
             if r and r[1] is not None and r[0] is self.mod and "." not in getattr(r[1], "_qualname", r[1].name):
                 if f.id.startswith("_") or self.inline_public:
                     return r[1], None
+            # a helper shared through a private module of the same package (`from ._alloc import allocate_attribute`)
+            if r and r[1] is not None and r[0] is not self.mod and "." not in getattr(r[1], "_qualname", r[1].name):
+                private_mod = r[0].name.rsplit(".", 1)[-1].startswith("_") and not r[0].is_pkg
+                same_pkg = r[0].name.rsplit(".", 1)[0] == self.mod.name.rsplit(".", 1)[0]
+                if same_pkg and (private_mod or r[1].name.startswith("_")):
+                    return r[1], None
             return None
         if isinstance(f, ast.Attribute) and isinstance(f.value, ast.Name) and f.value.id == "self" and self.cls is not None:
             ms = self.repo.methods(*self.cls)
             if f.attr in ms and ms[f.attr][1] is not self.fn:
                 h = ms[f.attr][1]
-                if any(isinstance(d, ast.Name) and d.id in ("property", "staticmethod", "classmethod") for d in h.decorator_list):
+                if any(isinstance(d, ast.Name) and d.id in ("property", "classmethod") for d in h.decorator_list):
                     return None
+                if any(isinstance(d, ast.Name) and d.id == "staticmethod" for d in h.decorator_list):
+                    return h, None          # self.f(a, b) on a static method: no receiver is bound
                 return h, _name("self")
         return None
 
@@ -479,6 +491,7 @@ class View:
             if not unroll:
                 break
             self.n_unrolled = 0
+            fn2.body = [fold_literals(st) for st in fn2.body]
             fn2.body = self.unroll(fn2.body)
             fn2.body = [fold_literals(st) for st in fn2.body]
             if not self.n_unrolled:
@@ -801,6 +814,13 @@ class _Fold(ast.NodeTransformer):
 
     def visit_Call(self, n):
         self.generic_visit(n)
+        if isinstance(n.func, ast.Name) and n.func.id in ("tuple", "list") and len(n.args) == 1 and not n.keywords \
+                and isinstance(n.args[0], (ast.GeneratorExp, ast.ListComp)) and len(n.args[0].generators) == 1 and not n.args[0].generators[0].ifs \
+                and isinstance(n.args[0].generators[0].target, ast.Name):
+            g = n.args[0].generators[0]          # tuple(f(x) for x in (a, b, c))  ->  (f(a), f(b), f(c))
+            items = lit_items(g.iter)
+            if items is not None and len(items) <= MAX_UNROLL:
+                return ast.copy_location(ast.Tuple(elts=[sym.subst(n.args[0].elt, {g.target.id: it}) for it in items], ctx=ast.Load()), n)
         if any(isinstance(a, ast.Starred) and isinstance(a.value, (ast.Tuple, ast.List)) and not any(isinstance(x, ast.Starred) for x in a.value.elts) for a in n.args):
             args = []
             for a in n.args:
